@@ -20,6 +20,19 @@ CLAIMED = {
              'all theorems closed under the global context.',
         technique='Coq refinement proof (trie -> flat map) by induction over histories + differential correspondence',
         design='5/C06'),
+    'C17': dict(
+        text='Machine-checked theorems (Coq 8.16.1) about a model of BeartypeConf.__new__ (alias folding, '
+             'BEARTYPE_IS_COLOR, ==-keyed memo consulted before defaulting/validation/sanification): for every '
+             'creation history, ==-equal arguments give the same object, differing ones different objects, == is '
+             'identity (so hash agrees), valid calls read back what was passed; the uniform-validation and '
+             'kwargs round-trip clauses are machine-refuted at full strength (known findings F6 F7 F8) and proved '
+             'in their strongest true form. Model tied to the code by replaying random creation histories '
+             '(valid / look-alike / invalid values, round-trips, env override) in forked pristine interpreters; '
+             'the import-time memo and the IntEnum facts are regenerated from the repository.',
+        note='Trusted: Coq kernel; harness value encoding; hash()/== consistency of CPython on the modelled '
+             'universe; is_identifier abstracted; locking is C15. All theorems closed under the global context.',
+        technique='Coq invariant proof over creation histories (memo keyed by Python ==) + differential correspondence',
+        design='5/C17'),
 }
 
 PENDING_REASON = ('not yet built in this round: the proof development for this property is scheduled (DESIGN.md '
